@@ -6,6 +6,7 @@ package websocket
 
 import (
 	"fmt"
+	"runtime"
 	"strings"
 	"time"
 )
@@ -157,6 +158,21 @@ func vEqBytes(a, b []byte) bool {
 }
 
 func vGhostElapsed() time.Duration { return time.Since(vStart) }
+
+// vGhostGoroutines counts the goroutines the library started that are still alive (engine: its goroutine table;
+// natively: goroutine stacks containing the library's background functions).
+func vGhostGoroutines() int {
+	time.Sleep(30 * time.Millisecond)
+	buf := make([]byte, 1<<20)
+	buf = buf[:runtime.Stack(buf, true)]
+	n := 0
+	for _, g := range strings.Split(string(buf), "\n\n") {
+		if strings.Contains(g, "websocket.(*Conn).timeoutLoop") || strings.Contains(g, "websocket.(*Conn).CloseRead.func1") {
+			n++
+		}
+	}
+	return n
+}
 
 // vObserve records values that are compared between the engine's evaluation under a model and the native run.
 func vObserve(tag string, vals ...any) {
